@@ -21,6 +21,15 @@ CLAIMED = {
     "C03": ("path-guard (must-pass-through edge) queries, provenance and who-may-write rules over go/ssa + AST uses",
             "every TagParser invocation is reached only on the not-banned edge of a lookup of the same name in the compiling set's ban map (banned edge returns an error); every template-named filter resolution (registry lookup, ApplyFilter with a stored name) is tied to a ban check before a successful return; sub-templates compile through the referring template's set (never the default-set shortcuts); Templates are constructed only by From* with the receiver set; ban maps are written only by BanTag/BanFilter behind freeze/existence/duplicate tests; every template-creating method sets the freeze flag first",
             "nothing of the statement is left to behaviour except that custom tags/filters registered by users are outside the engine", "DESIGN.md §3 C03"),
+    "C10": ("path-guard queries, effect/ownership analysis and SSA shape rules (phi/loop, index expressions) over go/ssa",
+            "extends links parent/child only behind the root-level and single-parent tests (error edges) and block registration only behind the duplicate test; compile-time stores to Template fields target only the template under construction or a freshly compiled parent (never a cached/shared one); execution runs the document of the template reached by following parent until nil; the block node walks .child from the root, executes the last definition and hands [0:len-1] to Super, which again takes the last",
+            "the rendered text of an inheritance chain as an observed value", "DESIGN.md §3 C10"),
+    "C11": ("who-may-call table over resolved callees, loop-shape and path-guard queries, argument provenance over go/ssa",
+            "file-system entry points are called only inside TemplateLoader implementations; loaders are invoked only by the set's resolver, in ascending order, first hit returns from inside the loop, total miss is an error; every name handed to FromFile/resolveTemplate is resolveFilename(<referring template>, name) on the referring set; include copies Public/Private only on the !only edge, stores with-pairs on every path and swallows a failed load only under if_exists && Sender==fromfile",
+            "rendering equivalence of literal vs computed names; behaviour of user-supplied loaders", "DESIGN.md §3 C11"),
+    "C19": ("loop-shape (induction variable, loop-carried phi), provenance and path-guard queries over go/ssa + registry extraction",
+            "both chain application sites iterate ascending, thread each output into the next input, return/write the last output and have no successful exit that skips the chain; a filter's argument is its parameter expression evaluated with the current ctx or AsValue(nil) on all three routes; registry misses are error returns and entries are used only on the hit edge; registries are written only by Register*/Replace* behind existence tests; built-in names are distinct; chains grow only by append; the filter chain is parsed at the factor level",
+            "equality of chain results with ApplyFilter composition as observed values", "DESIGN.md §3 C19"),
     "C12": ("static effect/ownership analysis + path-guard queries over go/ssa",
             "no map update/delete reachable from execution targets the caller's Context, ExecutionContext.Public, TemplateSet.Globals or package-level Contexts; no reflect.Set*; every ExecutionContext gets a fresh Private map; for/with/macro/block.Super bind names and run their body in a child context; context keys are validated (identifier syntax, macro clash) with error returns before execution; Globals merged before the caller context; Private consulted before Public",
             "visibility probes as observed behaviour (which value a name shows at which point)", "DESIGN.md §3 C12"),
